@@ -53,9 +53,10 @@ def hard_keyword_names(src):
 
 
 class Diff(Exception):
-    def __init__(self, path, nodetype, field, py, sc, lineno=None, cell=None):
+    def __init__(self, path, nodetype, field, py, sc, lineno=None, cell=None, col=None):
         self.path, self.nodetype, self.field, self.py, self.sc = path, nodetype, field, py, sc
         self.lineno = lineno
+        self.col = col
         self.cell = cell or nodetype
 
 
@@ -84,6 +85,7 @@ class Comparer:
         self.src = src
         self.srclines = None
         self.seen = set()
+        self.cols = []
 
     # -- public -----------------------------------------------------------------------------
     def run(self, py, sc):
@@ -110,7 +112,12 @@ class Comparer:
         if cell is None and nodetype == "Constant" and len(self.path) >= 1 \
                 and self.path[-1].startswith("JoinedStr"):
             cell = "fstring-literal-part"
-        raise Diff("/".join(self.path[-6:]), nodetype, field, _short(py), _short(sc), ln, cell)
+        if cell is None and self.path and self.path[-1].startswith("FormattedValue.value"):
+            cell = "fstring-replacement-field"
+        col = getattr(py, "col_offset", None) if isinstance(py, ast.AST) else (
+            self.cols[-1] if self.cols else None)
+        raise Diff("/".join(self.path[-6:]), nodetype, field, _short(py), _short(sc), ln, cell,
+                   col)
 
     def attrs(self, py, sc):
         """Location attributes; a difference is recorded and the walk goes on."""
@@ -181,15 +188,18 @@ class Comparer:
             if not isinstance(sc, list):
                 self.fail(owner, field, py, sc)
             if len(py) != len(sc):
-                self.fail(owner, field + "[len]", len(py), len(sc))
+                cell = None
+                if owner == "JoinedStr" and field == "values":
+                    cell = _fstring_parts_cell(py, sc)
+                self.fail(owner, field + "[len]", len(py), len(sc), cell=cell)
             for a, b in zip(py, sc):
-                saved = list(self.path), list(self.lines)
+                saved = list(self.path), list(self.lines), list(self.cols)
                 try:
                     self.value(a, b, owner, field)
                 except Diff as d:
                     # record and go on with the siblings
                     self.record(d)
-                    self.path, self.lines = saved
+                    self.path, self.lines, self.cols = saved
         else:
             if type(py) is not type(sc) or py != sc:
                 # distinguish 1 / 1.0 / True and -0.0 / 0.0 as ast.dump does
@@ -211,7 +221,9 @@ class Comparer:
         self.path.append(where)
         ln = getattr(py, "lineno", None)
         self.lines.append(ln if ln is not None else (self.lines[-1] if self.lines else None))
+        self.cols.append(getattr(py, "col_offset", None))
         self._node(py, sc)
+        self.cols.pop()
         self.lines.pop()
         self.path.pop()
 
@@ -330,6 +342,22 @@ class Comparer:
         keys = [getattr(x, "value", None) for x in sc.body[k].value.keys]
         if keys != props:
             self.fail("ClassDef", "property-table-keys", props, keys)
+
+
+def _fstring_parts_cell(py, sc):
+    """Which of the known ways an f-string can come out with a different number of parts."""
+    def has_set(vals):
+        return any(type(v) is ast.FormattedValue and type(v.value) in (ast.Set, ast.Dict)
+                   for v in vals)
+
+    if has_set(sc) and not has_set(py):
+        # a literal "{" / "}" part (from {{ or }}) was taken for the brace of a replacement field
+        return "JoinedStr:brace-literal-taken-as-operator"
+    for a, b in zip(py, py[1:]):
+        if type(a) is ast.Constant and isinstance(a.value, str) and a.value.rstrip().endswith("=") \
+                and type(b) is ast.FormattedValue:
+            return "JoinedStr:debug-specifier-text"
+    return None
 
 
 def _is_bare_annotation(s):
